@@ -402,7 +402,19 @@ impl Gen {
     fn op(&mut self, muis: &[u32], npfx: usize, session_wd: bool) -> Op {
         let k = self.rng.below(100);
         if session_wd && k < 14 { return Op::Withdraw(*self.rng.pick(muis), if self.rng.chance(1, 2) { None } else { Some(self.rng.below(4) as usize) }); }
-        if session_wd && k < 20 { let n = self.rng.range(1, muis.len() as u64) as usize; return Op::WithdrawBulk(muis[..n].to_vec()); }
+        if session_wd && k < 20 {
+            let n = self.rng.range(1, muis.len() as u64) as usize;
+            let mut v = muis[..n].to_vec();
+            // one WithdrawBulk in four names many sessions (sizes around 8 / 16 / 32): ids of sessions without routes are
+            // mixed in at random places, so that anything that batches or caps the list is driven past its size and a
+            // session with routes can sit anywhere in it
+            if self.rng.chance(1, 4) {
+                let total = *self.rng.pick(&[9usize, 10, 15, 16, 17, 20, 31, 33]);
+                let mut phantom = 900u32;
+                while v.len() < total { let at = self.rng.below(v.len() as u64 + 1) as usize; v.insert(at, phantom); phantom += 1; }
+            }
+            return Op::WithdrawBulk(v);
+        }
         // one Bulk in eight is large (sizes around 16 / 20 / 32 / 64, where a batch may be chunked, sorted or handled by
         // another algorithm) and, having few prefixes to draw from, writes the same (prefix, ingress) several times:
         // the last write of the Bulk is the one that must stand
